@@ -100,6 +100,9 @@ pub struct TaskCtx {
     pub budget_fired: bool,
     pub marks_allocated_at_yields: u32,
     pub hit_pure: bool,
+    /// where the diagnostics of the file being compiled go when the host's `Handler` is shared by
+    /// all files (sink, start position of the file)
+    pub diag_sink: Option<(Arc<Mutex<Vec<String>>>, u32)>,
 }
 
 thread_local! {
@@ -248,6 +251,20 @@ impl Emitter for CollectEmitter {
             })
             .unwrap_or_else(|| "-".into());
         self.out.lock().unwrap().push(format!("{:?}: {} @{}", db.level, db.message(), sp));
+    }
+}
+
+/// The emitter behind a `Handler` that the host shares between all files (one long-lived
+/// compiler instance printing to one place): it files each diagnostic under the file that is
+/// being compiled on the calling thread.
+pub struct RoutingEmitter;
+
+impl Emitter for RoutingEmitter {
+    fn emit(&mut self, db: &DiagnosticBuilder<'_>) {
+        let sink = CTX.with(|c| c.borrow().as_ref().and_then(|c| c.diag_sink.clone()));
+        if let Some((out, file_start)) = sink {
+            CollectEmitter { out, file_start }.emit(db);
+        }
     }
 }
 
